@@ -66,6 +66,14 @@ func parseRaces(text string) map[string]string {
 				if i+1 < len(lines) {
 					if m := raceFrame.FindStringSubmatch(lines[i+1]); m != nil {
 						f := m[1]
+						for { // drop type arguments: they contain package paths
+							a := strings.Index(f, "[")
+							b := strings.Index(f, "]")
+							if a < 0 || b < a {
+								break
+							}
+							f = f[:a] + f[b+1:]
+						}
 						if j := strings.LastIndex(f, "/"); j >= 0 {
 							f = f[j+1:]
 						}
